@@ -5,6 +5,7 @@ import (
 	"go/constant"
 	"go/token"
 	"go/types"
+	"os"
 	"sort"
 	"strings"
 
@@ -54,6 +55,11 @@ func (s *Sess) call(in ssa.CallInstruction, st *State) []Val {
 	name := s.eng.calleeName(com)
 	if com.IsInvoke() {
 		addArg(com.Value)
+		if s.nilcheck {
+			if _, isDefer := in.(*ssa.Defer); !isDefer {
+				s.oblige(st, "nil", fmt.Sprintf("nilcall.%s@%d", com.Method.Name(), s.ord[in.(ssa.Instruction)]), fmt.Sprintf("(distinct (i.tag %s) 0)", args[0].t), in.Pos(), "method call on a nil interface value: "+name)
+			}
+		}
 		ct = s.eng.contractForMethod(com.Method)
 	} else {
 		callee = com.StaticCallee()
@@ -90,7 +96,10 @@ func (s *Sess) call(in ssa.CallInstruction, st *State) []Val {
 		s.checkAssertsAt(in, name, st)
 	}
 	if (ct == nil || ct.Synth) && callee != nil && s.shouldInline(callee) {
-		if r, ok := s.inlineCall(callee, args, st); ok {
+		s.inlineSites = append(s.inlineSites, in)
+		r, ok := s.inlineCall(callee, args, st)
+		s.inlineSites = s.inlineSites[:len(s.inlineSites)-1]
+		if ok {
 			return r
 		}
 	}
@@ -136,7 +145,7 @@ func (s *Sess) call(in ssa.CallInstruction, st *State) []Val {
 		}
 		ce := s.calleeEnv(ct, callee, com, args, nbind, st, pre, nil)
 		for i, r := range ct.Requires {
-			if r.E == nil {
+			if r.E == nil || r.Free {
 				continue
 			}
 			f, err := ce.evalBool(r.E)
@@ -162,7 +171,7 @@ func (s *Sess) call(in ssa.CallInstruction, st *State) []Val {
 			mkResults(!ct.ReadsHeap, name)
 		} else {
 			mod := s.eng.callMods(s, ct, callee, com, args)
-			s.havocMods(st, mod, pre.top)
+			s.havocModsAtCall(st, mod, pre, in)
 			mkResults(false, name)
 		}
 		for _, r := range results {
@@ -183,7 +192,7 @@ func (s *Sess) call(in ssa.CallInstruction, st *State) []Val {
 	} else {
 		mod := s.eng.callMods(s, nil, callee, com, args)
 		s.havocCalls[name] = true
-		s.havocMods(st, mod, pre.top)
+		s.havocModsAtCall(st, mod, pre, in)
 		mkResults(false, name)
 		for _, r := range results {
 			s.assumeAt(st, s.wf(r.t, r.typ, st.top))
@@ -966,4 +975,159 @@ func (s *Sess) inlineCall(f *ssa.Function, args []Val, st *State) ([]Val, bool) 
 	}
 	s.inlined[f.String()] = true
 	return out, true
+}
+
+// havocModsAtCall havocs the callee's mod set. When that is the whole heap, local variables of this
+// function that live in heap cells (because a closure captures them) but are private -- their address
+// is only loaded from, stored to, or bound into closures that are called directly or handed to
+// in-repo callees that only call them -- keep their contents, unless this very call receives a
+// closure that captures them (then the callee may run it).
+func (s *Sess) havocModsAtCall(st *State, mod map[string]bool, pre *State, in ssa.CallInstruction) {
+	type keep struct{ key, sort, addr, old string }
+	var keeps []keep
+	passed := map[*ssa.Alloc]bool{}
+	// closures handed to this call, or to any call of this function being inlined around it
+	for _, site := range append(append([]ssa.CallInstruction{}, s.inlineSites...), in) {
+		for _, a := range append(append([]ssa.Value{}, site.Common().Args...), site.Common().Value) {
+			if mc, ok := a.(*ssa.MakeClosure); ok {
+				for _, b := range mc.Bindings {
+					if al, ok := b.(*ssa.Alloc); ok {
+						passed[al] = true
+					}
+				}
+			}
+		}
+	}
+	blk := in.(ssa.Instruction).Block()
+	if len(s.inlineSites) > 0 {
+		blk = s.inlineSites[0].(ssa.Instruction).Block()
+	}
+	for _, al := range s.privateCells() {
+		if passed[al] || !al.Block().Dominates(blk) {
+			continue
+		}
+		av, ok := s.env[al]
+		if !ok || av.place != nil || av.t == "" {
+			continue
+		}
+		T := derefType(al.Type())
+		switch T.Underlying().(type) {
+		case *types.Struct, *types.Array:
+			continue
+		}
+		key := cellRegion(T)
+		if !mod["*"] && !mod[key] {
+			continue
+		}
+		sort := s.elemSort(T)
+		keeps = append(keeps, keep{key, sort, av.t, s.region(st, key, sort)})
+	}
+	s.havocMods(st, mod, pre.top)
+	for _, k := range keeps {
+		s.assumeAt(st, fmt.Sprintf("(= (select %s %s) (select %s %s))", s.region(st, k.key, k.sort), k.addr, k.old, k.addr))
+	}
+}
+
+// privateCells lists the heap-allocated local variables of the function whose address never leaks.
+func (s *Sess) privateCells() []*ssa.Alloc {
+	if s.privCells != nil {
+		return *s.privCells
+	}
+	var out []*ssa.Alloc
+	for _, b := range s.fn.Blocks {
+		for _, in := range b.Instrs {
+			al, ok := in.(*ssa.Alloc)
+			if !ok || !al.Heap || al.Referrers() == nil {
+				continue
+			}
+			private := true
+			for _, r := range *al.Referrers() {
+				switch r := r.(type) {
+				case *ssa.Store:
+					if r.Val == ssa.Value(al) {
+						private = false
+					}
+				case *ssa.UnOp, *ssa.DebugRef:
+				case *ssa.MakeClosure:
+					if !s.closureStaysLocal(r) {
+						private = false
+					}
+				default:
+					private = false
+				}
+			}
+			if private {
+				out = append(out, al)
+			}
+		}
+	}
+	s.privCells = &out
+	if os.Getenv("GOVC_V") == "2" {
+		for _, al := range out {
+			fmt.Fprintf(os.Stderr, "private cell: %s %s\n", al.Name(), al.Comment)
+		}
+	}
+	return out
+}
+
+// closureStaysLocal: the closure value is only called directly, deferred, or passed to in-repo
+// functions that do nothing with that parameter but call it.
+func (s *Sess) closureStaysLocal(mc *ssa.MakeClosure) bool {
+	if mc.Referrers() == nil {
+		return false
+	}
+	for _, r := range *mc.Referrers() {
+		switch r := r.(type) {
+		case *ssa.DebugRef:
+		case ssa.CallInstruction:
+			com := r.Common()
+			if com.Value == ssa.Value(mc) {
+				if _, isGo := r.(*ssa.Go); isGo {
+					return false
+				}
+				continue
+			}
+			callee := com.StaticCallee()
+			if callee == nil || com.IsInvoke() || callee.Blocks == nil || !s.eng.inRepo(callee) {
+				return false
+			}
+			if _, isGo := r.(*ssa.Go); isGo {
+				return false
+			}
+			for i, a := range com.Args {
+				if a != ssa.Value(mc) {
+					continue
+				}
+				if i >= len(callee.Params) || !paramOnlyCalled(callee.Params[i]) {
+					return false
+				}
+			}
+		default:
+			return false
+		}
+	}
+	return true
+}
+
+func paramOnlyCalled(p *ssa.Parameter) bool {
+	if p.Referrers() == nil {
+		return true
+	}
+	for _, r := range *p.Referrers() {
+		switch r := r.(type) {
+		case *ssa.DebugRef:
+		case *ssa.Call:
+			if r.Common().Value != ssa.Value(p) {
+				return false
+			}
+			for _, a := range r.Common().Args {
+				if a == ssa.Value(p) {
+					return false
+				}
+			}
+		default:
+			return false
+		}
+	}
+	return true
 }
